@@ -22,7 +22,7 @@ prop = a.prop or a.id.split('-')[0]
 wt = tempfile.mkdtemp(prefix='seedconfirm-')
 os.rmdir(wt)
 subprocess.check_call(['git', '-C', '/repo', 'worktree', 'add', '-q', '--detach', wt, 'HEAD'])
-env = dict(os.environ, CARGO_NET_OFFLINE='true', CARGO_TARGET_DIR='/tmp/seedconfirm-target')
+env = dict(os.environ, CARGO_NET_OFFLINE='true', CARGO_TARGET_DIR=os.environ.get('SEEDCONFIRM_TARGET', '/tmp/seedconfirm-target'))
 log = []
 
 
